@@ -1,7 +1,123 @@
 import ComposeVerif.Ops.Common
-/-! line-protocol ops for C20 (filled in by the property's owner) -/
+import ComposeVerif.Model.Secrets
+/-! line-protocol ops for C20: the path of a secret / config value taken from the environment -/
+open Lean
 namespace CV.Ops.C20
+open CV CV.Secrets
 
-def handlers : List (String × Handler) := []
+def bad (s : String) : Json := Json.mkObj [("bad", s)]
+
+def getVal (args : Json) (k : String) : Except String Val := Val.ofJson (getObj args k)
+
+def getDict (args : Json) (k : String) : Except String Val.KVs :=
+  match getVal args k with
+  | .ok (.map kvs) => .ok kvs
+  | .ok _ => .error "dict is not a mapping"
+  | .error e => .error e
+
+def outVal : Out Val → Json
+  | .ok v => Json.mkObj [("ok", v.toJson)]
+  | .err e => Json.mkObj [("err", e)]
+  | .panic s => Json.mkObj [("panic", s)]
+
+def outKVs : Out Val.KVs → Json
+  | .ok v => Json.mkObj [("ok", (Val.map v).toJson)]
+  | .err e => Json.mkObj [("err", e)]
+  | .panic s => Json.mkObj [("panic", s)]
+
+def strMapJson (m : List (String × String)) : Json := Json.mkObj (m.map fun kv => (kv.1, Json.str kv.2))
+
+def fileObjJson (o : FileObj) : Json :=
+  Json.mkObj [("name", o.name), ("file", o.file), ("environment", o.environment), ("content", o.content),
+    ("flag", o.marshallContent), ("external", o.external), ("labels", strMapJson o.labels), ("driver", o.driver),
+    ("driver_opts", strMapJson o.driverOpts), ("template_driver", o.templateDriver), ("extensions", (Val.map o.extensions).toJson)]
+
+def fileObjOfJson (j : Json) : FileObj :=
+  { name := getStr j "name", file := getStr j "file", environment := getStr j "environment", content := getStr j "content",
+    marshallContent := getBool j "flag", external := getBool j "external", labels := getStrMap j "labels",
+    driver := getStr j "driver", driverOpts := getStrMap j "driver_opts", templateDriver := getStr j "template_driver",
+    extensions := match Val.ofJson (getObj j "extensions") with
+      | .ok (.map kvs) => kvs
+      | _ => [] }
+
+def objsJson (l : List (String × FileObj)) : Json := Json.arr (l.map fun kv => Json.arr #[Json.str kv.1, fileObjJson kv.2]).toArray
+
+def objsOfJson (j : Json) : List (String × FileObj) :=
+  match j with
+  | .arr a => a.toList.filterMap fun e => match e with
+    | .arr #[.str k, o] => some (k, fileObjOfJson o)
+    | _ => none
+  | _ => []
+
+/-- `resolveSecretsEnvironment` / `resolveConfigsEnvironment` -/
+def resolve : Handler := fun args =>
+  match getDict args "dict" with
+  | .error e => bad e
+  | .ok d =>
+    let env := getStrMap args "env"
+    match getStr args "which" with
+    | "secrets" => outKVs (.ok (resolveSecretsEnv env d))
+    | "configs" => outKVs (.ok (resolveConfigsEnv env d))
+    | _ => outKVs (.ok (resolveConfigsEnv env (resolveSecretsEnv env d)))
+
+def setName : Handler := fun args =>
+  match getDict args "dict" with
+  | .error e => bad e
+  | .ok d => outKVs (setNameFromKey d)
+
+def procExt : Handler := fun args =>
+  match getDict args "dict" with
+  | .error e => bad e
+  | .ok d => outVal (.ok (processExtensions d))
+
+def outObj : Out FileObj → Json
+  | .ok o => Json.mkObj [("ok", fileObjJson o)]
+  | .err e => Json.mkObj [("err", e)]
+  | .panic s => Json.mkObj [("panic", s)]
+
+def decode : Handler := fun args =>
+  match getVal args "v" with
+  | .error e => bad e
+  | .ok v => if getStr args "kind" == "secret" then outObj (decodeSecret v) else outObj (decodeConfig v)
+
+def rendererOf (s : String) : Renderer := if s == "json" then .json else .yaml
+
+def marshal : Handler := fun args =>
+  let o := fileObjOfJson (getObj args "obj")
+  let r := rendererOf (getStr args "renderer")
+  Json.mkObj [("ok", (if getStr args "kind" == "secret" then renderSecret r o else renderConfig r o).toJson)]
+
+/-- `marshallOptions.apply` on the heap: receiver map at address 0 -/
+def apply : Handler := fun args =>
+  let m := objsOfJson (getObj args "secrets")
+  let h : Heap := { maps := [(0, m)], next := 1 }
+  let (h', q) := applyHeap (getBool args "content") h 0
+  Json.mkObj [("aliased", q == 0), ("receiver", objsJson (h'.get 0)), ("result", objsJson (h'.get q))]
+
+def sortObjs (l : List (String × FileObj)) : List (String × FileObj) := (l.toArray.qsort (fun a b => a.1 < b.1)).toList
+
+def flowOp : Handler := fun args =>
+  match getDict args "dict" with
+  | .error e => bad e
+  | .ok d =>
+    let env := getStrMap args "env"
+    let pname := getStr args "pname"
+    match loadDict env pname d with
+    | .err e => Json.mkObj [("err", e)]
+    | .panic s => Json.mkObj [("panic", s)]
+    | .ok p =>
+      -- the section-wise form the theorems speak about must give the same project
+      let same := match load env pname d with
+        | .ok q => objsJson (sortObjs q.secrets) == objsJson (sortObjs p.secrets) && objsJson (sortObjs q.configs) == objsJson (sortObjs p.configs)
+        | _ => false
+      if !same then bad "Secrets.load ≠ Secrets.loadDict" else
+      Json.mkObj [("ok", Json.mkObj [
+        ("secrets", objsJson (sortObjs p.secrets)), ("configs", objsJson (sortObjs p.configs)),
+        ("yaml0", (render .yaml false p).toJson), ("yaml1", (render .yaml true p).toJson),
+        ("json0", (render .json false p).toJson), ("json1", (render .json true p).toJson)])]
+
+def handlers : List (String × Handler) :=
+  [("c20.resolve", resolve), ("c20.setName", setName), ("c20.procExt", procExt), ("c20.decode", decode),
+   ("c20.marshal", marshal), ("c20.apply", apply), ("c20.flow", flowOp)]
 
 end CV.Ops.C20
